@@ -160,6 +160,8 @@ def iterate_concrete(eng, v):
         from . import npmodels
 
         return npmodels.narr_rows(eng, v)
+    if isinstance(v, SArr) and isinstance(v.n, int) and not isinstance(v.n, bool):  # a 1-D array of exactly n cells
+        return [v.get(j) for j in range(v.n)]
     if isinstance(v, (range, str, dict, set, frozenset)):
         return list(v)
     if isinstance(v, Iter):
